@@ -24,7 +24,7 @@ MUST_REACH = ["shape:tall", "shape:wide", "shape:square", "rank:deficient", "ran
 C = 1e3
 
 FULL = ["graded_last_pivot", "graded_columns", "graded_rows", "gauss", "spectrum", "int", "pure_imag", "single_axis", "scaled_small", "scaled_big", "layout", "real_only", "unit_identity",
-        "upper_tri", "diag"]
+        "upper_tri", "diag", "herm_psd", "herm_indef", "unitary", "lower_tri", "rank1_plus_identity"]
 DEF = ["lowrank", "zero_column", "zero_column_negzero", "zero_column_masked", "dup_column", "dep_column", "zero_matrix", "zero_row", "rank1", "int_lowrank", "leading_deficient"]
 
 
@@ -245,6 +245,11 @@ def _full(spec, ctx, R):
         A = gen.layout(refq.randq(rng, m, n), gen.LAYOUTS[spec["idx"] % len(gen.LAYOUTS)])
     elif c in ("real_only", "unit_identity", "upper_tri", "diag"):
         A = gen.structured(rng, c, m, n)
+    elif c in ("herm_psd", "herm_indef", "unitary", "lower_tri", "rank1_plus_identity"):
+        # square symmetric / unitary / triangular structure: a general QR has no use for it (and must not take a shortcut through it)
+        if "dims" not in spec or m != n:
+            m = n = max(1, min(m, n))
+        A = refq.eye(n) + gen.structured(rng, "rank1", n, n) if c == "rank1_plus_identity" else gen.structured(rng, c, n, n)
     else:
         raise ValueError(c)
     if c in ("graded_columns", "graded_last_pivot", "graded_rows"):
